@@ -116,39 +116,45 @@ def spd_matrix(g, batch, n, dtype, lo=0.5, hi=2.0):
 
 # ------------------------------------------------------------------ operator kinds
 
-def _user_class(name, methods, counter):
+def _user_class(name, methods, counter, nonlin=False):
     import xitorch
 
     def tick(k):
         counter[k] = counter.get(k, 0) + 1
 
+    def mat(self):
+        # nonlin: the operator's matrix Mat*exp(s) is a *non-linear* function of its scalar parameter s (second derivatives
+        # of the operator w.r.t. its own parameters do not vanish)
+        return self.Mat * torch.exp(self.s) if nonlin else self.Mat
+
     def _mv(self, x):
         tick("mv")
-        return torch.matmul(self.Mat, x.unsqueeze(-1)).squeeze(-1)
+        return torch.matmul(mat(self), x.unsqueeze(-1)).squeeze(-1)
 
     def _rmv(self, x):
         tick("rmv")
-        return torch.matmul(H(self.Mat), x.unsqueeze(-1)).squeeze(-1)
+        return torch.matmul(H(mat(self)), x.unsqueeze(-1)).squeeze(-1)
 
     def _mm(self, x):
         tick("mm")
-        return torch.matmul(self.Mat, x)
+        return torch.matmul(mat(self), x)
 
     def _rmm(self, x):
         tick("rmm")
-        return torch.matmul(H(self.Mat), x)
+        return torch.matmul(H(mat(self)), x)
 
     def _fullmatrix(self):
         tick("fullmatrix")
-        return self.Mat
+        return mat(self)
 
     def _getparamnames(self, prefix=""):
-        return [prefix + "Mat"]
+        return [prefix + "Mat", prefix + "s"] if nonlin else [prefix + "Mat"]
 
-    def __init__(self, Mat, is_hermitian=False):
+    def __init__(self, Mat, is_hermitian=False, s=None):
         xitorch.LinearOperator.__init__(self, shape=Mat.shape, is_hermitian=is_hermitian, dtype=Mat.dtype, device=Mat.device,
                                         _suppress_hermit_warning=True)
         self.Mat = Mat
+        self.s = s
     impl = {"_mv": _mv, "_rmv": _rmv, "_mm": _mm, "_rmm": _rmm, "_fullmatrix": _fullmatrix}
     body = {m: impl[m] for m in methods}
     body["_getparamnames"] = _getparamnames
@@ -158,6 +164,12 @@ def _user_class(name, methods, counter):
 
 METHODSETS = {"mv": ["_mv"], "mv_rmv": ["_mv", "_rmv"], "mv_mm": ["_mv", "_mm"],
               "all": ["_mv", "_rmv", "_mm", "_rmm", "_fullmatrix"]}
+
+
+def make_nonlin_leaf(kind, Mat, s, herm_flag, counter):
+    """user-class operator with matrix Mat*exp(s), parameters (Mat, s)"""
+    cls = _user_class("N_" + kind, METHODSETS[kind], counter, nonlin=True)
+    return cls(Mat, is_hermitian=bool(herm_flag), s=s)
 
 
 def make_leaf(kind, Mat, herm_flag, counter):
